@@ -262,6 +262,27 @@ impl From<&Value> for Value {
     }
 }
 
+/// Compares an integer with a double by the numbers they denote. Converting the integer to
+/// `f64` first would round it (beyond 2^53) and make distinct numbers compare equal.
+fn cmp_int_float(int: i128, float: f64) -> Option<Ordering> {
+    if float.is_nan() {
+        return None;
+    }
+    // every i64 and u64 lies strictly between -2^64 and 2^64
+    if float >= 18446744073709551616.0 {
+        return Some(Ordering::Less);
+    }
+    if float <= -18446744073709551616.0 {
+        return Some(Ordering::Greater);
+    }
+    let whole = float.trunc();
+    match int.cmp(&(whole as i128)) {
+        // same integral part: the fraction decides
+        Ordering::Equal => 0.0.partial_cmp(&(float - whole)),
+        ordering => Some(ordering),
+    }
+}
+
 impl PartialEq for Value {
     fn eq(&self, other: &Self) -> bool {
         match (self, other) {
@@ -285,15 +306,23 @@ impl PartialEq for Value {
                 .try_into()
                 .map(|a: u64| a == *b)
                 .unwrap_or(false),
-            (Value::Int(a), Value::Float(b)) => (*a as f64) == *b,
+            (Value::Int(a), Value::Float(b)) => {
+                cmp_int_float(*a as i128, *b) == Some(Ordering::Equal)
+            }
             (Value::UInt(a), Value::Int(b)) => a
                 .to_owned()
                 .try_into()
                 .map(|a: i64| a == *b)
                 .unwrap_or(false),
-            (Value::UInt(a), Value::Float(b)) => (*a as f64) == *b,
-            (Value::Float(a), Value::Int(b)) => *a == (*b as f64),
-            (Value::Float(a), Value::UInt(b)) => *a == (*b as f64),
+            (Value::UInt(a), Value::Float(b)) => {
+                cmp_int_float(*a as i128, *b) == Some(Ordering::Equal)
+            }
+            (Value::Float(a), Value::Int(b)) => {
+                cmp_int_float(*b as i128, *a) == Some(Ordering::Equal)
+            }
+            (Value::Float(a), Value::UInt(b)) => {
+                cmp_int_float(*b as i128, *a) == Some(Ordering::Equal)
+            }
             (_, _) => false,
         }
     }
@@ -322,7 +351,7 @@ impl PartialOrd for Value {
                     // If the i64 doesn't fit into a u64 it must be less than 0.
                     .unwrap_or(Ordering::Less),
             ),
-            (Value::Int(a), Value::Float(b)) => (*a as f64).partial_cmp(b),
+            (Value::Int(a), Value::Float(b)) => cmp_int_float(*a as i128, *b),
             (Value::UInt(a), Value::Int(b)) => Some(
                 a.to_owned()
                     .try_into()
@@ -330,9 +359,13 @@ impl PartialOrd for Value {
                     // If the u64 doesn't fit into a i64 it must be greater than i64::MAX.
                     .unwrap_or(Ordering::Greater),
             ),
-            (Value::UInt(a), Value::Float(b)) => (*a as f64).partial_cmp(b),
-            (Value::Float(a), Value::Int(b)) => a.partial_cmp(&(*b as f64)),
-            (Value::Float(a), Value::UInt(b)) => a.partial_cmp(&(*b as f64)),
+            (Value::UInt(a), Value::Float(b)) => cmp_int_float(*a as i128, *b),
+            (Value::Float(a), Value::Int(b)) => {
+                cmp_int_float(*b as i128, *a).map(Ordering::reverse)
+            }
+            (Value::Float(a), Value::UInt(b)) => {
+                cmp_int_float(*b as i128, *a).map(Ordering::reverse)
+            }
             _ => None,
         }
     }
